@@ -459,8 +459,9 @@ func (u *vC20UDP) runOnce(o *vC20Out, sc *vC20Scenario, corpus string) bool {
 	synth := false
 	if subCalls > 0 {
 		for _, rr := range got.Answer {
-			if _, ok := rr.(*dns.AAAA); ok {
+			if a, ok := rr.(*dns.AAAA); ok {
 				synth = true
+				sc.synthAAAA = append(sc.synthAAAA, a.AAAA)
 			}
 		}
 	}
@@ -479,6 +480,9 @@ func (u *vC20UDP) runOnce(o *vC20Out, sc *vC20Scenario, corpus string) bool {
 	}
 	if bounded && k == "udp-synth" {
 		k += "-bounded"
+	}
+	if sc.reverse {
+		k += "-of-synth"
 	}
 	o.emit(k, fmt.Sprintf("CaseWire %s %s (Some (%s, %d%%N)) %s %s %s %s", vC20Config(sc.cfg), qCoq, vC20Msg(sc.down), sc.mark, subCoq, cutCoq, vC20Bool(sc.wf), obs),
 		desc, k != "udp-no-lookup" || calls%2 == 0, "", "")
@@ -571,7 +575,11 @@ func TestVerifC20UDP(t *testing.T) {
 	n := vC20EnvInt("VERIF_N", 400)
 	for i := 0; i < n; i++ {
 		if sc := vC20Gen(o, r, false, true); sc != nil {
+			sc.synthAAAA = nil
 			u.run(o, sc, "")
+			if sc.wantsReverse(r) {
+				u.run(o, vC20ReverseOf(r, sc, sc.synthAAAA[r.Intn(len(sc.synthAAAA))]), "")
+			}
 		}
 	}
 }
